@@ -341,6 +341,25 @@ func (h *histState) callFailed(call string, f *callFail) {
 	if f.class == "panic" {
 		h.res.add("C13", "C13 panic "+call+" "+f.disc, detail)
 		h.res.add("C04", "C04 panic "+call+" "+f.disc, detail)
+		if strings.Contains(f.disc, "StateRecorder") || strings.Contains(f.stack, ").Report(") {
+			h.res.add("C15", "C15 a listener crashed on a report: "+f.disc, detail)
+		}
+		if h.box != nil && h.model != nil {
+			// the reports delivered before the crash are still evidence
+			M, n := h.cfg.ref.M, len(h.data)
+			for _, r := range h.box.lis.reps[h.evPos:] {
+				switch r.Type {
+				case gi.SimReset, gi.CycleStart, gi.CycleEnd:
+					continue
+				}
+				if uint64(r.Address) >= M {
+					h.res.add("C15", "C15 report address not below core size in "+repTypeName(r.Type), map[string]any{"report": repStr(r), "coresize": M, "call": call})
+				}
+				if r.WarriorIndex < 0 || r.WarriorIndex >= n {
+					h.res.add("C15", "C15 report names a warrior that does not exist in "+repTypeName(r.Type), map[string]any{"report": repStr(r), "warriors": n, "call": call})
+				}
+			}
+		}
 	} else {
 		h.res.add("C13", "C13 no-progress "+call+" spinning at "+f.disc, detail)
 		h.res.add("C04", "C04 no-progress "+call+" spinning at "+f.disc, detail)
